@@ -59,10 +59,12 @@ func (m *c10Mapping) valuerComp() influxql.Valuer {
 		&influxql.NowValuer{Now: m.now, Location: m.zone})
 }
 
-func c10Map(edge bool, tz string) *c10Mapping {
+func c10Map(edge bool, tz string) *c10Mapping { return c10MapZ(edge, tz, os.Getenv("VERIF_C10_ZONE_MIN")) }
+
+func c10MapZ(edge bool, tz string, z string) *c10Mapping {
 	shift := time.Duration(seed()%1000) * 24 * time.Hour
 	zone := time.UTC
-	if z := os.Getenv("VERIF_C10_ZONE_MIN"); z != "" {
+	if z != "" {
 		zone = time.FixedZone("Z"+z, func() int { n, _ := strconv.Atoi(z); return n }()*60)
 	}
 	m := &c10Mapping{zone: zone, bases: map[int]time.Time{
@@ -96,6 +98,16 @@ var c10Maps = map[bool]*c10Mapping{}
 
 // tz mappings (C18): built on demand, one per zone name
 var c10TzMaps sync.Map
+
+// zone mappings (C10): a case may carry its zone offset itself ("zmin", minutes east), so that a replay needs no environment
+func c10GetZoneMap(edge bool, zmin string) *c10Mapping {
+	key := fmt.Sprintf("z:%v:%s", edge, zmin)
+	if m, ok := c10TzMaps.Load(key); ok {
+		return m.(*c10Mapping)
+	}
+	m, _ := c10TzMaps.LoadOrStore(key, c10MapZ(edge, "", zmin))
+	return m.(*c10Mapping)
+}
 
 func c10GetTzMap(tz string) *c10Mapping {
 	if m, ok := c10TzMaps.Load(tz); ok {
@@ -292,6 +304,9 @@ func init() {
 	register("c10", &Suite{Run: func(c M) M {
 		edge, _ := c["edge"].(bool)
 		m := c10GetMap(edge)
+		if z := str(c["zmin"]); z != "" {
+			m = c10GetZoneMap(edge, z)
+		}
 		var text string
 		if t := list(c["toks"]); t != nil {
 			text = render(c10Resolve(t, m))
